@@ -7,6 +7,7 @@ import engine_cli as cli
 import engine_flw as flw
 import engine_flw2 as flw2
 import engine_pan as pan
+import engine_bit as bit
 
 PROPS = {
     "C02": {
@@ -24,8 +25,8 @@ PROPS = {
         "assumptions": ["all SubRule methods are invoked on the same SubRule object (cells named by field)"],
     },
     "C08": {
-        "controls": ["FLW-guard"],
-        "rules": [("FLW-5", flw2.flw5), ("FLW-6", flw2.flw6), ("FLW-7", flw2.flw7), ("TAB-2", tab.tab2), ("TAB-3", tab.tab3)],
+        "controls": ["FLW-guard", "BIT"],
+        "rules": [("FLW-5", flw2.flw5), ("FLW-6", flw2.flw6), ("FLW-7", flw2.flw7), ("TAB-2", tab.tab2), ("TAB-3", tab.tab3), ("BIT-2", bit.bit2)],
         "explanation": "Decides the invariant-maintenance clauses of C08: a representation invariant holds after every rule iff every writer re-establishes it. "
                        "FLW-5a: MIR typestate (Empty/NonEmpty/Maybe, branch-refined on is_empty) of every by-value syllable that is pushed, inserted or stored "
                        "into a word; FLW-5b: every removal of a segment from a syllable inside a word is followed on all normal paths by an emptiness check that "
@@ -33,7 +34,7 @@ PROPS = {
                        "FLW-6: every parse::<u16> of tone digits is reachable only after replace('0',\"\") and a rejected chars().count() > 4, concat_tone cannot "
                        "return before dedup and its len > 4 meld test, every write of Syllable.tone copies a tone / capped literal / concat_tone result; FLW-7: raw "
                        "`*place =` writes assign None only, node bytes and the packed place word are written only by set_node and the four setters (each ending "
-                       "in the Some(0)->None normalisation, TAB-3), cardinals.json places are normalised; TAB-2/3: masks stay inside their fields.",
+                       "in the Some(0)->None normalisation, TAB-3), cardinals.json places are normalised; TAB-2/3: masks stay inside their fields; BIT-2: by bit-level abstract interpretation of the four setters' MIR over all canonical places (16 presence shapes, symbolic payloads), the word after set_X is exactly the canonical word of the resulting shape (absent sub-node => payload bits 0, no presence bit => None) and every one of the 16 bits is owned by exactly one sub-node.",
         "does_not_decide": "'at least one syllable' beyond the presence of the explicit `len() <= 1` refusals; the arithmetic inside concat_tone's meld step.",
         "assumptions": ["words entering a rule satisfy the invariant (syllables cloned out of a word are NonEmpty)",
                         "gen_syll_from_struct may return an empty syllable (unknown variable / empty structure), hence Maybe"],
@@ -162,24 +163,26 @@ PROPS = {
         "assumptions": ["doc/doc.md keeps its '### Inbuilt Aliases' code blocks", "a helper that tests both members of a pair satisfies SYN-1 by itself"],
     },
     "C04": {
-        "rules": [("TAB-1", tab.tab1), ("TAB-2", tab.tab2), ("TAB-3", tab.tab3)],
-        "explanation": "Decides the table clauses of C04 only: the hand-maintained index tables (FType/NodeType/NodeKind "
+        "controls": ["BIT"],
+        "rules": [("TAB-1", tab.tab1), ("TAB-2", tab.tab2), ("TAB-3", tab.tab3), ("BIT-3", bit.bit3)],
+        "explanation": "BIT-3 decides the single-feature equations of C04 for all segments at once by bit-level abstract interpretation of Segment::{get_node,set_node,set_feat,feat_match}: on a symbolic segment (3 symbolic bytes, place = one of 17 presence shapes with symbolic payloads), for every node, single-bit mask and polarity: feat_match is the named bit (its negation for -) and false on an absent sub-node; set_feat(+) yields old|bit (creating an absent sub-node with its other bits 0), set_feat(-) yields old&!bit and is the identity on an absent sub-node; every other node reads exactly as before; the feature then matches with the polarity set. Tables: the hand-maintained index tables (FType/NodeType/NodeKind "
                        "from_usize & count, DiaFeatType = NodeType++FType, hm_to_mod split constant, modifier array lengths, "
                        "diacritics.json keys) agree, the 16-bit place packing is laid out consistently and used consistently by its accessors (TAB-3, see C18), and FType::to_node_mask maps every feature to exactly one bit, bits of a node "
                        "disjoint and contiguous and equal to the Place masks, enum order node-contiguous. A necessary condition: a "
                        "duplicated/two-bit mask or a shifted index makes [+F] test or alter another feature.",
-        "does_not_decide": "Segment::apply_seg_mods node/alpha logic, alpha capture and replay, sub-node creation semantics (value-level).",
+        "does_not_decide": "Segment::apply_seg_mods node/alpha logic above set_feat/set_node, alpha capture and replay.",
         "assumptions": ["HIR literals and resolved paths as type-checked by rustc are the table contents",
                         "root/manner/laryngeal widths (3/8/3 low bits) as documented on `Segment` and used by cardinals.json"],
     },
     "C18": {
-        "rules": [("TAB-3", tab.tab3)],
-        "explanation": "Decides the layout-agreement clause of C18: Place's 15 constants describe four disjoint presence bits and four "
+        "controls": ["BIT"],
+        "rules": [("TAB-3", tab.tab3), ("BIT-1", bit.bit1), ("BIT-2", bit.bit2), ("BIT-3", bit.bit3)],
+        "explanation": "BIT-1/2/3 decide the get/set/match equations of C18 for every value by bit-level abstract interpretation of the accessors' MIR (rules/bitdom.py: forward dataflow over symbolic bits, branches on decided conditions pruned, calls to local functions followed context-sensitively): the layout (presence bit, payload bits per sub-node) is derived from the getters; for 16 canonical presence shapes + None + 16 raw shapes with symbolic junk in absent payloads (together all 2^16 words), get_X after set_X(Some(m)/None) is Some(m)/None, get_Y (Y != X) is unchanged, X_is_some/X_is_none agree, the raw word after a setter is canonical (absent => no residual payload bits; last sub-node removed => None); Segment::{get_node,set_node,set_feat,feat_match,node_match} satisfy the corresponding equations on a symbolic segment for 7 nodes x single-bit masks x polarities, and NodeKind::Place is refused by getter and setter alike. TAB-3 additionally decides the layout-agreement clause: Place's 15 constants describe four disjoint presence bits and four "
                        "disjoint contiguous payload fields covering 16 bits with X_LOW == X_MSK << X_OFF; every accessor uses only its own "
                        "sub-node's constants (is_some tests X_BIT, get_X is guarded by X_is_some and shifts/masks by X_OFF/X_MSK, set_X(Some) "
                        "sets X_BIT and clears exactly X_LOW, set_X(None) clears exactly X_BIT|X_LOW) and every setter ends in the Some(0)->None "
                        "normalisation; Segment::{get,set}_node dispatch each NodeKind to the accessor of the same name.",
-        "does_not_decide": "the get/set equations themselves over all 2^16 values; set_feat / feat_match / node_match logic; out-of-range payloads in release builds.",
+        "does_not_decide": "out-of-range payloads in release builds (the debug_assert is the only guard; TAB-2 bounds the masks that reach the setters); multi-bit masks (the feature table has single-bit masks only, TAB-2); node_match(Some(v)) on a present node (equality of two symbolic bytes).",
         "assumptions": ["constants const-evaluated by rustc", "rule compares which constants/literals are used under which operator, "
                         "not arbitrary arithmetic: an equivalent rewrite in a different idiom fails closed"],
     },
